@@ -92,6 +92,33 @@ def run(ctx):
                 for k, v in ef.idx_may.items():
                     Widx.setdefault(k, set()).update(v)
                     why.setdefault(k + '[..]', []).append(m)
+            # aliasing: self.a = self.b  -> a write through one name is a write of the other
+            aliases = set()
+            for m, ef in ce.eff.items():
+                aliases |= ef.aliases
+            changed = True
+            while changed:
+                changed = False
+                for al in aliases:
+                    a, b = tuple(al)
+                    for x, y in ((a, b), (b, a)):
+                        if (x in W or x in Widx) and y not in W:
+                            W.add(y)
+                            why.setdefault(y, []).append('alias of %s' % x)
+                            changed = True
+            # class-level mutable attributes mutated through self (shared by all instances)
+            for (r_, c_) in ce.mro:
+                cdef = repo.modules[r_].classes.get(c_)
+                for node in (cdef.body if cdef else []):
+                    if isinstance(node, ast.Assign) and len(node.targets) == 1 and isinstance(node.targets[0], ast.Name):
+                        nm = node.targets[0].id
+                        if isinstance(node.value, ast.Constant):
+                            continue
+                        init_assigns = '__init__' in ce.eff and (nm in ce.eff['__init__'].must)
+                        if (nm in W or nm in Widx) and not init_assigns:
+                            ctx.bad('%s.%s class-level state' % (cname, nm),
+                                    'class attribute %s.%s is mutated through self and never rebound per instance: all instances share it' % (c_, nm),
+                                    '%s:%d %s' % (r_, node.lineno, c_))
             # sub-object setters (DefaultCounter.setup) : exclude their writes
             for a, t in ce.attr_types.items():
                 sub = ce.sub_effects(a)
